@@ -1,6 +1,10 @@
 pub mod c01;
 pub mod c03;
 pub mod c05;
+pub mod c08;
+pub mod c12;
+pub mod c13;
+pub mod c14;
 pub mod c16;
 pub mod c20;
 
